@@ -110,8 +110,14 @@ def _run_one(args: Tuple[Variant, str]) -> Dict[str, Any]:
         try:
             ctx = Ctx(Repo(tmp))
             for fn in rules_for(v.prop):
-                rr = fn(ctx)
-                rr.check_floor()
+                # as check.py does: every rule runs; a rule that cannot be decided is remembered, and only counts
+                # when no rule reports a violation
+                try:
+                    rr = fn(ctx)
+                    rr.check_floor()
+                except AnalysisError as err:
+                    err_txt = str(err) if err_txt is None else err_txt
+                    continue
                 for f in rr.findings:
                     f.prop = v.prop
                 # findings listed in known_findings.json are printed as KNOWN-FINDING by check.py, not as violations
